@@ -93,9 +93,10 @@ def parse_terse(text):
     return res
 
 
-def run_kani(names, jobs, timeout_s, extra=()):
+def run_kani(names, jobs, timeout_s, extra=(), harness_timeout=300):
     _sync_lock()
-    cmd = ['cargo', 'kani', '--target-dir', TARGET, '-Z', 'stubbing', '--output-format', 'terse', '--exact']
+    cmd = ['cargo', 'kani', '--target-dir', TARGET, '-Z', 'stubbing', '--output-format', 'terse', '--exact',
+           '-Z', 'unstable-options', '--harness-timeout', str(harness_timeout)]
     if jobs > 1:
         cmd += ['-j', str(jobs)]
     for (mod, n) in names:
@@ -160,7 +161,8 @@ def run_group(run, group, jobs=None):
         return
     jobs = jobs or int(os.environ.get('VERIF_KANI_JOBS', '8'))
     timeout_s = 1500 if run.tier == 'quick' else 4 * 3600
-    out, wall, timed_out = run_kani([(m, n) for (m, n, _w) in hs], jobs, timeout_s)
+    out, wall, timed_out = run_kani([(m, n) for (m, n, _w) in hs], jobs, timeout_s,
+                                    harness_timeout=240 if run.tier == 'quick' else 3600)
     res = parse_terse(out)
     if 'error: could not compile' in out or 'Failed to execute cargo' in out or 'error[E' in out:
         run.inconclusive.append({'engine': 'kani', 'reason': 'harness crate does not compile against /repo',
